@@ -120,7 +120,7 @@ def check_c01(pid, tier, replay):
     hs_scaled = [gen_loader.with_followups(rng, ld, 200000 + i, k=(1, 3, 2)[i % 3]) for i, ld in enumerate(scaled)]
     hs_hand = []
     for i, (ld, sel) in enumerate(gen_loader.handwritten_loads()):
-        for k in ((1, 2, 6) if q else range(len(gen_loader.FOLLOW))):
+        for k in ((1, 2, 6, 9) if q else range(len(gen_loader.FOLLOW))):
             hs_hand.append(gen_loader.with_followups(rng, dict(ld), 300000 + i * 16 + k, sel=sel, k=k + len(gen_loader.FOLLOW) * (i % len(gen_loader.PRE))))
     parts = [("model_shapes", hs_shape), ("mutations", hs_mut), ("scaled_run_length", hs_scaled), ("hand_written", hs_hand)]
     histories = [h for (_, hs) in parts for h in hs]
